@@ -268,6 +268,87 @@ func TestGenC09(t *testing.T) {
 		}
 		q.stat("distinct_nontrivial", 1)
 	}
+	// an application that sends before it receives: both sides send n+1 messages and only then start to receive. The
+	// acknowledgements of the first n arrive at once; the (n+1)-th Send returns as soon as they have been delivered
+	// (the receive loop must not be stuck handing data to an application that is not receiving yet)
+	for _, n := range []int{1, 2, 5} {
+		cfg := simCfg{id: fmt.Sprintf("sendfirst%d", n), n: uint8(n), static: 2 * time.Second}
+		l.keep = l.keep[:0]
+		l.o.line("BEGIN %s n=%d chunk=0", cfg.id, n)
+		pan := bubble(t, func(t *testing.T) {
+			l.start = time.Now()
+			l.last = 0
+			base := runtime.NumGoroutine()
+			s := newSim(t, l, cfg)
+			if !s.cleanHandshake() {
+				q.fail("c09:handshake", cfg.id)
+				s.finish(base)
+				return
+			}
+			deliverAll := func() {
+				for k := 0; k < 200; k++ {
+					moved := false
+					for x := 0; x < 2; x++ {
+						if s.canOp(x) {
+							s.op(x, "deliver")
+							moved = true
+						}
+					}
+					if !moved {
+						return
+					}
+				}
+			}
+			// the client's application sends n+1 messages, all delivered and acknowledged at once: the server holds n
+			// of them for an application that is not receiving yet, the (n+1)-th is in front of its receive loop
+			for i := 0; i <= n; i++ {
+				deliverAll()
+				if sb, _ := s.busy(0); !sb {
+					s.send(0, []byte{0xC1, byte(i)})
+				}
+			}
+			deliverAll()
+			// now the server's application sends n+1 messages; the client acknowledges each at once
+			for i := 0; i <= n; i++ {
+				deliverAll()
+				if sb, _ := s.busy(1); !sb {
+					s.send(1, []byte{0x51, byte(i)})
+				}
+			}
+			deliverAll()
+			t1 := time.Now()
+			sb1, _ := s.busy(1)
+			q.check(!sb1, "c09:blocked-with-free-window:acks-unread-while-application-not-receiving", func() string {
+				return fmt.Sprintf("n=%d: both applications send n+1 messages before they receive; every packet and every ACK is delivered at once, yet the server's Send #%d is still blocked (its first %d packets were acknowledged on the wire; %d packets wait in front of its receive loop); events %v", n, n+1, n, len(s.inb[1]), lastN(l.keep, 14))
+			})
+			q.stat("send_before_receive_scenarios", 1)
+			// now the applications receive: everything arrives
+			for k := 0; k < 40; k++ {
+				for x := 0; x < 2; x++ {
+					if _, rb := s.busy(x); !rb && len(s.recvMsgs[x]) < n+1 {
+						s.recv(x)
+					}
+				}
+				deliverAll()
+				if len(s.recvMsgs[0]) >= n+1 && len(s.recvMsgs[1]) >= n+1 {
+					break
+				}
+				s.advance(500 * time.Millisecond)
+			}
+			q.check(len(s.recvMsgs[0]) >= n+1 && len(s.recvMsgs[1]) >= n+1, "c06:not-delivered:send-before-receive", func() string {
+				return fmt.Sprintf("n=%d: after both applications started to receive, %v later: client received %d of %d, server %d of %d", n, time.Since(t1), len(s.recvMsgs[0]), n+1, len(s.recvMsgs[1]), n+1)
+			})
+			synctest.Wait()
+			for _, g := range s.finish(base) {
+				q.fail("c12:leak:"+g, cfg.id)
+			}
+		})
+		l.o.line("END %s", cfg.id)
+		if pan != "" {
+			q.fail("gbn:bubble-panic", cfg.id+": "+truncate(pan, 300))
+		}
+		q.stat("distinct_nontrivial", 1)
+	}
 	// after a timer-driven retransmission the send loop waits for the peer's answer to it (syncer.waitForSync, up to
 	// three resend timeouts) and takes no new data meanwhile: one of five slots in use, every answer lost
 	for _, n := range []int{2, 5} {
